@@ -15,7 +15,8 @@ LOG_TYPES = {1: ('uint8_t', '<B'), 2: ('uint16_t', '<H'), 3: ('uint32_t', '<L'),
              5: ('int16_t', '<h'), 6: ('int32_t', '<i'), 7: ('float', '<f'), 8: ('FP16', '<e')}
 PARAM_TYPES = {0x08: ('uint8_t', '<B'), 0x09: ('uint16_t', '<H'), 0x0A: ('uint32_t', '<L'), 0x0B: ('uint64_t', '<Q'),
                0x00: ('int8_t', '<b'), 0x01: ('int16_t', '<h'), 0x02: ('int32_t', '<i'), 0x03: ('int64_t', '<q'),
-               0x06: ('float', '<f'), 0x07: ('double', '<d')}
+               0x06: ('float', '<f'), 0x07: ('double', '<d'),
+               0x05: ('FP16', '')}      # the library's table has no unpack format for half-float parameters (table-level use only)
 
 ENOENT = 2
 
@@ -472,12 +473,11 @@ def make_driver_class():
             link = self
 
             def body():
-                s.sleep(max(0.0, due - s.now), 'reply.delay')
                 while link._pending and link._pending[0][0] <= s.now + 1e-12:
                     _, h2, p2 = link._pending.pop(0)
                     if not link.closed:
                         link._put(h2, p2)
-            s.spawn(None, body, name='delayed-reply')
+            s.spawn(None, body, name='delayed-reply', start_at=due, label='reply.delay')
 
         def _put(self, h, payload):
             """Hand a downlink packet to the host side.  The append is atomic with the device step that produced the
@@ -526,6 +526,14 @@ def make_driver_class():
                 cb(msg)
 
         def close(self):
+            # Downlink packets the library has not taken yet: the model hands them over the instant the device produces
+            # them, on a real link they would still be in the air when the driver is closed.  By default they are lost
+            # with the link; keeping them (the library may still read them from the closed driver's queue) is an
+            # environment alternative.
+            env = self.env
+            if not self.closed and env is not None and self.in_queue.queue:
+                if env.chooser(2, 'link.close:keep_queued') == 0:
+                    del self.in_queue.queue[:]
             self.closed = True
             self.link_error_callback = None
 
